@@ -307,6 +307,18 @@ func H15_vecmerge() {
 		}
 	}
 	if next == 0 && vSkipKnown("C05-nothing-survives") {
+		// recorded finding of C05 (the result of a merge without survivors cannot be queried); what holds stays checked
+		var z ZapPlugin
+		_, _, err := z.Merge([]segment.Segment{s0, s1}, []*roaring.Bitmap{d0, d1}, vP("m.zap"), nil, nil)
+		vAssert(err == nil, "zero-merge")
+		m, err := z.Open(vP("m.zap"))
+		vAssert(err == nil && m.Count() == 0, "zero-open")
+		vAssert(m.Close() == nil, "zero-close")
+		if o, ok := s0.(*Segment); ok {
+			vAssert(o.Close() == nil, "zero-close-in0")
+		}
+		vRunSpawned()
+		vAssert(faiss.VerifLive() == 0, "zero-no-live-index")
 		return
 	}
 	var z ZapPlugin
@@ -374,7 +386,15 @@ func H16_history() {
 				except.Add(1)
 				excl[1] = true
 			}
-			// recorded finding: the cache keeps the id map filtered by an earlier caller's exclusions
+			// recorded finding: the cache keeps the id map filtered by the exclusions of the caller that created
+			// the entry. Only while that entry is still cached: an open that finds no entry (first open, or after
+			// the entry expired) creates a fresh one from its own exclusions and is checked in full.
+			sb.vecIndexCache.m.RLock()
+			_, warm := sb.vecIndexCache.cache[sb.fieldsMap["v"]] // (keyed by field id + 1)
+			sb.vecIndexCache.m.RUnlock()
+			if !warm {
+				prevExcl = prevExcl[:0]
+			}
 			for _, pe := range prevExcl {
 				for d := range pe {
 					if pe[d] && !excl[d] && vSkipKnown("C16-cache-remembers-exclusions") {
@@ -382,7 +402,9 @@ func H16_history() {
 					}
 				}
 			}
-			prevExcl = append(prevExcl, excl)
+			if !warm {
+				prevExcl = append(prevExcl, excl) // (the creator of the entry)
+			}
 			filt := vBool(fmt.Sprint("filt", e))
 			vi, err := sb.InterpretVectorIndex("v", filt, except)
 			vAssert(err == nil && vi != nil, "interpret")
